@@ -44,7 +44,15 @@ type c01Params struct {
 	Rand   *bool  `json:"rand"`
 	Prefix *int32 `json:"prefix"`
 }
+type c01Dual struct {
+	V4Support bool `json:"v4sup"`
+	V6Support bool `json:"v6sup"`
+	Enable4   bool `json:"en4"`
+	Enable6   bool `json:"en6"`
+	Client6   bool `json:"client6"` // registrant address family
+}
 type c01Case struct {
+	Dual      *c01Dual  `json:"dual"`
 	Secret    string    `json:"secret"`
 	ClientGen bool      `json:"client_gen"`
 	LV        uint32    `json:"lv"`
@@ -75,6 +83,12 @@ type c01Res struct {
 	Secret  string  `json:"secret"`
 	Station c01Side `json:"station"`
 	Client  c01Side `json:"client"`
+	// dual-stack message through parseRegMessage: the registrations it yields, in order (V6 per entry),
+	// and the single-family derivation of the IPv6 twin for the same secret
+	DualRegs []c01Side `json:"dual_regs,omitempty"`
+	DualV6   []bool    `json:"dual_v6,omitempty"`
+	DualErr  string    `json:"dual_err,omitempty"`
+	Twin     *c01Res   `json:"twin,omitempty"`
 }
 
 type c01Conn struct{ w []byte }
@@ -401,6 +415,92 @@ func c01Run(rm *RegistrationManager, stationPriv, stationPub [32]byte, cs c01Cas
 	return
 }
 
+// the wire parameters of a case, rebuilt from what the client transport registered with
+func c01Wire(transport, wire string) *anypb.Any {
+	if wire == "" || wire == "absent" {
+		return nil
+	}
+	var rnd bool
+	var pid int32
+	fmt.Sscanf(wire, "rand=%t,prefix=%d", &rnd, &pid)
+	var m proto.Message
+	switch transport {
+	case "prefix":
+		m = &pb.PrefixTransportParams{PrefixId: &pid, RandomizeDstPort: &rnd}
+	case "dtls":
+		m = &pb.DTLSTransportParams{RandomizeDstPort: &rnd, SrcAddr4: &pb.Addr{IP: []byte{192, 0, 2, 7}, Port: proto.Uint32(40000)}}
+	default:
+		m = &pb.GenericTransportParams{RandomizeDstPort: &rnd}
+	}
+	a, err := anypb.New(m)
+	if err != nil {
+		return nil
+	}
+	return a
+}
+
+// one message with both address families through the real parseRegMessage; every registration it
+// yields is read in the order the station would use them
+func c01DualRun(rm *RegistrationManager, stationPriv, stationPub [32]byte, cs c01Case) (res c01Res) {
+	c4 := cs
+	c4.Dual = nil
+	c4.V6 = false
+	res = c01Run(rm, stationPriv, stationPub, c4)
+	c6 := c4
+	c6.V6 = true
+	c6.ClientGen = false
+	c6.Secret = res.Secret
+	tw := c01Run(rm, stationPriv, stationPub, c6)
+	res.Twin = &tw
+	defer func() {
+		if e := recover(); e != nil {
+			res.DualErr = "panic: " + fmt.Sprint(e)
+		}
+	}()
+	secret, _ := hex.DecodeString(res.Secret)
+	tt := c01TT[cs.Transport]
+	gen := uint32(7)
+	lv := cs.LV
+	covert := "192.0.2.1:443"
+	c2s := &pb.ClientToStation{ClientLibVersion: &lv, Transport: &tt, CovertAddress: &covert,
+		DecoyListGeneration: &gen, TransportParams: c01Wire(cs.Transport, res.Client.Wire),
+		V4Support: &cs.Dual.V4Support, V6Support: &cs.Dual.V6Support}
+	src := pb.RegistrationSource_API
+	c2sw := &pb.C2SWrapper{SharedSecret: secret, RegistrationPayload: c2s, RegistrationSource: &src,
+		RegistrationAddress: []byte{198, 51, 100, 9}}
+	if cs.Dual.Client6 {
+		c2sw.RegistrationAddress = net.ParseIP("2001:db8::9")
+	}
+	msg, err := proto.Marshal(c2sw)
+	if err != nil {
+		res.DualErr = err.Error()
+		return
+	}
+	o4, o6 := rm.EnableIPv4, rm.EnableIPv6
+	rm.EnableIPv4, rm.EnableIPv6 = cs.Dual.Enable4, cs.Dual.Enable6
+	regs, err := rm.parseRegMessage(msg)
+	rm.EnableIPv4, rm.EnableIPv6 = o4, o6
+	if err != nil {
+		res.DualErr = err.Error()
+		return
+	}
+	for _, reg := range regs {
+		var st c01Side
+		st.Out = "ok"
+		st.IP = hex.EncodeToString(reg.PhantomIp)
+		st.Port = int(reg.PhantomPort)
+		st.Tag = hex.EncodeToString([]byte((*reg.TransportPtr).GetIdentifier(reg)))
+		if k, ok := reg.TransportKeys().(obfs4.Obfs4Keys); ok {
+			st.Priv = hex.EncodeToString(k.PrivateKey[:])
+			st.Pub = hex.EncodeToString(k.PublicKey[:])
+			st.Node = hex.EncodeToString(k.NodeID[:])
+		}
+		res.DualRegs = append(res.DualRegs, st)
+		res.DualV6 = append(res.DualV6, reg.PhantomIp.To4() == nil)
+	}
+	return
+}
+
 func isNilMsg(m proto.Message) bool {
 	switch v := m.(type) {
 	case *pb.GenericTransportParams:
@@ -447,7 +547,11 @@ func TestVerifC01Derive(t *testing.T) {
 	}
 	res := make([]c01Res, len(cases))
 	for i, c := range cases {
-		res[i] = c01Run(rm, priv, pub, c)
+		if c.Dual != nil {
+			res[i] = c01DualRun(rm, priv, pub, c)
+		} else {
+			res[i] = c01Run(rm, priv, pub, c)
+		}
 	}
 	out, _ := json.Marshal(res)
 	if err := os.WriteFile(os.Getenv("VERIF_OUT"), out, 0o644); err != nil {
